@@ -2,8 +2,10 @@
 """store a confirmed seeded change under /verif/seeded/<prop>-<variant>/ (development aid)"""
 import sys, os, json, shutil
 prop, var = sys.argv[1], sys.argv[2]; caught = sys.argv[3:]      # e.g. C06:input C17:corr
-src = "/tmp/mut/%s/mut" % prop
-dst = "/verif/seeded/%s-%s" % (prop, var)
+# MUT_TAG=r4: worktree /tmp/mut/<prop>r4, stored as seeded/<prop>-<var>4
+tag = os.environ.get("MUT_TAG", "")
+src = "/tmp/mut/%s%s/mut" % (prop, tag)
+dst = "/verif/seeded/%s-%s%s" % (prop, var, tag.lstrip("r"))
 os.makedirs(dst, exist_ok=True)
 shutil.copy(os.path.join(src, var + ".diff"), os.path.join(dst, "patch.diff"))
 shutil.copy(os.path.join(src, var + "_demo.rs"), os.path.join(dst, "demo.rs"))
